@@ -8,7 +8,8 @@
    is stated as "acceptance implies the MAC equation", and every "unless the MACs
    collide" is explicit. *)
 From Coq Require Import List ZArith NArith Bool String Ascii Permutation.
-From Verif Require Import gen.Params model.Checksum model.Throttle model.RoomAuth proofs.RoomAuth_proofs.
+From Verif Require Import gen.Params model.Checksum model.Throttle model.RoomAuth proofs.RoomAuth_proofs
+     corr.Run_C02 proofs.C02_trace_proofs.
 Import ListNotations.
 Open Scope Z_scope.
 Local Open Scope string_scope.
@@ -185,6 +186,41 @@ Theorem C02_outgoing_random_injective :
   forall i, (i < 32)%nat -> rand1 i = rand2 i.
 Proof. exact outgoing_random_injective. Qed.
 
+(* ---- the trace predicate on the model's traces -------------------------------- *)
+
+(* Full statement:  forall cfg xs, P_C02 cfg (model_trace cfg xs) = true
+   (P_C02 = the property as a decision procedure over traces, corr/Run_C02.v: events only
+   for the backend whose secret matches; a well-formed POST is answered 403 iff no secret
+   of the claimed backend matches; 429 only after ten refusals; an accepted checksum is not
+   accepted again with another (random, body)).
+   It holds for every configuration, every list of requests and all oracle tables that
+   come from one MAC function hm, under two hypotheses about the last clause only:
+   no_collision (the "unless HMAC collides" of the property) and no_boundary_shift, which
+   excludes exactly the known finding C02/boundary-shift (two requests of the run with
+   equal random ++ body but a different split).  wf_op: the MAC recorded for a backend
+   depends on its secret only and the generator's intent agrees with the lookup oracle
+   (judged per case as code 3). *)
+Theorem C02_P_on_model_partial :
+  forall hm cfg xs,
+  tables_from hm cfg xs -> no_collision hm cfg xs -> no_boundary_shift xs ->
+  (forall x, In x xs -> wf_op cfg x) ->
+  P_C02 cfg (model_trace cfg xs) = true.
+Proof. exact P_on_model_partial. Qed.
+
+(* Without no_boundary_shift the predicate fails on a trace of the model (and of the
+   implementation: the same history is replayed on the real server every run). *)
+Theorem C02_P_on_model_refuted :
+  tables_from shift_hm shift_cfg shift_ops /\ (forall x, In x shift_ops -> wf_op shift_cfg x) /\
+  P_C02 shift_cfg (model_trace shift_cfg shift_ops) = false.
+Proof. exact P_on_model_refuted. Qed.
+
+(* the hypotheses are met by a run with an accepted and a refused request *)
+Example C02_P_on_model_nonvacuous :
+  let xs := [shift_op "0123456789abcdef" "{}"; shift_op "0123456789abcdee" "{}"] in
+  no_boundary_shift xs /\ (forall x, In x xs -> wf_op shift_cfg x) /\
+  map (fun xo => status (snd xo)) (model_trace shift_cfg xs) = [400%N; 403%N].
+Proof. exact P_on_model_nonvacuous. Qed.
+
 (* ---- non-vacuity ------------------------------------------------------------ *)
 
 (* a request that is accepted, one with a flipped bit that is refused with 403 and
@@ -237,3 +273,5 @@ Print Assumptions C02_boundary_shift_accepted.
 Print Assumptions C02_tamper_pairwise_refuted.
 Print Assumptions C02_outgoing_checksum.
 Print Assumptions C02_outgoing_random_injective.
+Print Assumptions C02_P_on_model_partial.
+Print Assumptions C02_P_on_model_refuted.
